@@ -3,7 +3,7 @@
    OCaml's own; nat, positive, N, Z stay inductive.  No Extract Constant. *)
 Require Extraction.
 Require Import ExtrOcamlBasic.
-From Flussab Require Import Base Consts Parsed Reader Writer Prog Text Cnf.
+From Flussab Require Import Base Consts Parsed Reader Writer Prog Text Cnf Aiger.
 Extraction "extracted/model.ml"
   Parsed.err_into Parsed.or_give_up Parsed.optional Parsed.matches Parsed.or_parse
   Parsed.or_always_parse Parsed.and_then Parsed.and_also Parsed.and_do Parsed.map
@@ -14,6 +14,8 @@ Extraction "extracted/model.ml"
   Text.ascii_digits Text.signed_ascii_digits Text.ascii_digits_multi Text.signed_ascii_digits_multi
   Text.tabs_or_spaces Text.newline Text.next_newline Text.fixed Text.swar
   Cnf.parse_dimacs Cnf.parse_log Cnf.lrs_init
+  Aiger.parse_aag Aiger.parse_aig Aiger.whole_file
+  Consts.max_code_u8 Consts.max_code_u16 Consts.max_code_u32 Consts.max_code_u64 Consts.max_code_usize
   Consts.max_dimacs_i8 Consts.max_dimacs_i16 Consts.max_dimacs_i32 Consts.max_dimacs_i64 Consts.max_dimacs_isize
   Z.add N.add N.mul N.sub N.div_eucl N.eqb N.ltb N.leb N.of_nat N.to_nat.
 
